@@ -267,6 +267,62 @@ def d4(chk, prog):
                f"the rows built by region_depth_count do not line up with the table's columns: {({k: [repr(x) for x in v.v] for k, v in c.items()} if c else out)}")
 
 
+def d4_pileup_driver(chk, prog):
+    """the pileup path of the driver on an alignment file without a single read: the table of the bins (depth 0, log2 at the floor) still comes back"""
+    fi2 = prog.fn(f"{COV}.interval_coverages")
+    tb = Table(chk, "bedcov-columns", "interval_coverages, pileup path: an alignment file with reads / without a single read still gives the bins' table (the read length only feeds the log line)", fi2.loc(), fi2.qn + "::pileup driver")
+    for n_reads in (3, 0):
+        W.reset()
+        model = Model()
+        rows = [("chrQ", 5, 9, "GENE A", 0 if n_reads == 0 else 40), ("chrR", 20, 30, "H", 0)]
+
+        def pileup(it, *a, rows=rows, **k):
+            d = DF({"chromosome": Vec([r[0] for r in rows], aligned=True), "start": Vec([r[1] for r in rows], aligned=True), "end": Vec([r[2] for r in rows], aligned=True),
+                    "gene": Vec([r[3] for r in rows], aligned=True), "basecount": Vec([r[4] for r in rows], aligned=True),
+                    "depth": Vec([Fr(r[4], r[2] - r[1]) for r in rows], aligned=True), "log2": Vec([Term.sym(f"LG{i}") for i in range(len(rows))], aligned=True)}, len(rows))
+            d.exact = True
+            return d
+        model.prims[f"{COV}.interval_coverages_pileup"] = pileup
+        model.prims["cnvlib.samutil.bam_total_reads"] = lambda it, *a, **k: n_reads
+        model.prims["cnvlib.core.fbase"] = lambda it, f: "S"
+
+        class Reads:
+            def abs_iter(self):
+                return [Row({"query_length": 100}) for _ in range(n_reads)]
+
+            def close(self):
+                return None
+
+            def seek(self, *a):
+                return None
+        model.ext["pysam.AlignmentFile"] = lambda it, *a, **k: Reads()
+
+        class Handle:
+            def abs_iter(self):
+                return ["chrQ\t5\t9\tGENE A\n", "chrR\t20\t30\tH\n"]
+        model.builtins["open"] = lambda *a, **k: Handle()
+        clock = [0]
+
+        def now(it):
+            clock[0] += 2
+            return Fr(clock[0])
+        model.ext["time.time"] = now
+        it = Interp(prog, model)
+        try:
+            out = it.run(fi2.qn, ["b.bed", "S.bam", False, 0, 1, None])
+            raised = None
+        except Undecided as e:
+            tb.undecided.append(f"{n_reads} reads: {e}")
+            continue
+        except Raised as e:
+            out, raised = None, str(e)
+        c = out.data.cols if isinstance(out, GA) else {}
+        ok = raised is None and isinstance(out, GA) and "basecount" not in c and list(c.get("chromosome", Vec([])).v) == ["chrQ", "chrR"] and out.meta.get("sample_id") == "S" \
+            and all(same(a, Fr(r[4], r[2] - r[1])) for a, r in zip(c["depth"].v, rows))
+        tb.cell(ok, dict(reads_in_file=n_reads, raised=raised, columns=[k for k in c if not k.startswith("__")]))
+    tb.done("the pileup path gives no table (or a table with other columns) for an alignment file -- also one without any read")
+
+
 class FileStub:
     def __init__(self, log, name):
         self.log, self.name, self.lines, self.closed = log, name, [], False
@@ -420,16 +476,29 @@ def d5b(chk, prog):
 def d5c(chk, prog):
     """serial and parallel pileup: same rows in file order, same (bam, min_mapq, fasta) at every bedcov call"""
     fi = prog.fn(f"{COV}.interval_coverages_pileup")
-    tb = Table(chk, "ordered-fanout", "interval_coverages_pileup: rows and bedcov arguments, procs=1 vs procs=3", fi.loc(), fi.qn)
+    tb = Table(chk, "ordered-fanout", "interval_coverages_pileup: rows and bedcov arguments, procs = 1 / 3 / 8 (more processes than bins)", fi.loc(), fi.qn)
     # the regions file is not in genomic order (chr2 before chr1; the longer of two bins with one start first): samtools keeps the file's order
     chunks = {"c1.bed": [("chr2", 100, 70), ("chr1", 500, 0)], "c2.bed": [("chr1", 0, 40)], "c3.bed": [("chr3", 300, 100), ("chr3", 0, 10)]}
     for mq, fasta in itertools.product([0, 30], [None, "ref.fa"]):
         outs = {}
-        for procs in (1, 3):
+        for procs in (1, 3, 8):                      # (8: more worker processes than bins)
             W.reset()
             model = Model()
             calls, removed = [], []
-            model.prims["cnvlib.parallel.to_chunks"] = lambda it, fname, *a, **k: list(chunks)
+
+            def to_chunks(it, fname, chunk_size=5000, *a, **k):
+                # the real splitter cuts every `chunk_size` lines (k % chunk_size): a size that is not a positive whole number cannot work
+                cs = T(chunk_size)
+                if not cs.is_const() or cs.cval().denominator != 1:
+                    raise Undecided(f"to_chunks(chunk_size={chunk_size!r})")
+                if cs.cval() == 0:
+                    raise Raised("ZeroDivisionError", "integer modulo by zero (to_chunks with a chunk size of 0 lines)")
+                if cs.cval() < 0:
+                    raise Raised("ValueError", "to_chunks with a negative chunk size")
+                return list(chunks)
+            model.prims["cnvlib.parallel.to_chunks"] = to_chunks
+            # the regions file, should the code look into it itself: five records (and a comment line)
+            model.builtins["open"] = lambda fname, *a, **k: ["#track\n"] + [f"{r[0]}\t{r[1]}\t{r[1] + 100}\tg{r[1]}\n" for c in chunks.values() for r in c]
             model.prims["cnvlib.parallel.rm"] = lambda it, fname, removed=removed: removed.append(fname)
 
             def bedcov(it, bed, bam, min_mapq, fasta=None, calls=calls):
@@ -550,6 +619,7 @@ def run(chk):
     d2(chk, prog)
     d3(chk, prog)
     d4(chk, prog)
+    d4_pileup_driver(chk, prog)
     d5(chk, prog)
     d5b(chk, prog)
     d5c(chk, prog)
